@@ -46,7 +46,7 @@ for pdir in sorted(glob.glob(V+'/mutants/C*')):
     names=sorted(os.path.basename(x)[:-6] for x in glob.glob(pdir+'/*.patch'))
     out.append(f"- {os.path.basename(pdir)}: "+', '.join(names))
 nb=len(glob.glob(V+'/mutants/benign/*.patch'))
-out.append(f"\nBehaviour-preserving refactorings (`mutants/benign/*.patch`, {nb} patches with a description each): every property's check is silent on every one of them (tools/benign_all.sh; re-run in the thorough tier).")
+out.append(f"\nBehaviour-preserving refactorings (`mutants/benign/*.patch`, {nb} patches with a description each): every property's check is silent on every one of them (tools/benign_all.sh; re-run in the thorough tier). A second, held-out corpus is in `mutants/benign-heldout/` with its outcome in RESULTS.txt (see §9.0.4).")
 txt='\n'.join(out)+'\n'
 p=V+'/DESIGN.md'
 s=open(p).read()
